@@ -22,7 +22,7 @@ fn blank() -> serde_json::Map<String, Value> {
     for k in ["kind", "name", "vis", "recv", "ret", "trait", "self_ty", "field_vis", "path"] {
         m.insert(k.to_string(), json!(""));
     }
-    for k in ["unsafe", "const", "ret_self", "ret_mut", "direct", "calls_ctor", "has_unsafe", "in_type_impl"] {
+    for k in ["unsafe", "const", "ret_self", "ret_mut", "direct", "calls_ctor", "has_unsafe", "in_type_impl", "writes_field", "mut_self_param"] {
         m.insert(k.to_string(), json!(false));
     }
     m
@@ -33,6 +33,17 @@ struct BodyScan<'a> {
     direct: bool,
     calls_ctor: bool,
     has_unsafe: bool,
+    writes_field: bool,
+}
+
+/// `<expr>.0` (the inner field of a tuple struct), possibly parenthesised
+fn is_field0(e: &syn::Expr) -> bool {
+    match e {
+        syn::Expr::Field(f) => matches!(&f.member, syn::Member::Unnamed(i) if i.index == 0),
+        syn::Expr::Paren(p) => is_field0(&p.expr),
+        syn::Expr::Group(g) => is_field0(&g.expr),
+        _ => false,
+    }
 }
 impl<'a, 'ast> Visit<'ast> for BodyScan<'a> {
     fn visit_expr_call(&mut self, c: &'ast syn::ExprCall) {
@@ -51,6 +62,36 @@ impl<'a, 'ast> Visit<'ast> for BodyScan<'a> {
             }
         }
         syn::visit::visit_expr_call(self, c);
+    }
+    // the tuple constructor used as a VALUE (`.map(Name)`, `let f = Self;`): as good as calling it
+    fn visit_expr_path(&mut self, p: &'ast syn::ExprPath) {
+        if p.qself.is_none() && p.path.segments.len() == 1 {
+            let id = p.path.segments[0].ident.to_string();
+            if id == self.type_name || id == "Self" {
+                self.direct = true;
+            }
+        }
+        syn::visit::visit_expr_path(self, p);
+    }
+    // writes to / mutable borrows of the inner field: `x.0 = ..`, `x.0 += ..`, `&mut x.0`
+    fn visit_expr_assign(&mut self, a: &'ast syn::ExprAssign) {
+        if is_field0(&a.left) {
+            self.writes_field = true;
+        }
+        syn::visit::visit_expr_assign(self, a);
+    }
+    fn visit_expr_binary(&mut self, b: &'ast syn::ExprBinary) {
+        use syn::BinOp::*;
+        if matches!(b.op, AddAssign(_) | SubAssign(_) | MulAssign(_) | DivAssign(_) | RemAssign(_) | BitXorAssign(_) | BitAndAssign(_) | BitOrAssign(_) | ShlAssign(_) | ShrAssign(_)) && is_field0(&b.left) {
+            self.writes_field = true;
+        }
+        syn::visit::visit_expr_binary(self, b);
+    }
+    fn visit_expr_reference(&mut self, r: &'ast syn::ExprReference) {
+        if r.mutability.is_some() && is_field0(&r.expr) {
+            self.writes_field = true;
+        }
+        syn::visit::visit_expr_reference(self, r);
     }
     fn visit_expr_struct(&mut self, s: &'ast syn::ExprStruct) {
         let last = s.path.segments.last().map(|x| x.ident.to_string()).unwrap_or_default();
@@ -95,6 +136,16 @@ fn fn_record(sig: &syn::Signature, vis: &syn::Visibility, block: Option<&syn::Bl
         }
     };
     m.insert("recv".into(), json!(recv));
+    // a parameter (not the receiver) that is a mutable reference to the newtype: `place: &mut Self`
+    let mut_self_param = sig.inputs.iter().any(|a| match a {
+        syn::FnArg::Typed(t) => {
+            let ty = t.ty.to_token_stream().to_string();
+            let toks: Vec<&str> = ty.split(|c: char| !(c.is_alphanumeric() || c == '_' || c == '&')).filter(|x| !x.is_empty()).collect();
+            ty.contains("& mut") && toks.iter().any(|x| *x == "Self" || *x == type_name)
+        }
+        _ => false,
+    });
+    m.insert("mut_self_param".into(), json!(mut_self_param));
     let ret = match &sig.output {
         syn::ReturnType::Default => "".to_string(),
         syn::ReturnType::Type(_, t) => t.to_token_stream().to_string(),
@@ -105,8 +156,9 @@ fn fn_record(sig: &syn::Signature, vis: &syn::Visibility, block: Option<&syn::Bl
     m.insert("ret_mut".into(), json!(ret.contains("& mut") || ret.contains("&mut") || ret.contains("* mut")));
     m.insert("ret".into(), json!(ret));
     if let Some(b) = block {
-        let mut scan = BodyScan { type_name, direct: false, calls_ctor: false, has_unsafe: false };
+        let mut scan = BodyScan { type_name, direct: false, calls_ctor: false, has_unsafe: false, writes_field: false };
         scan.visit_block(b);
+        m.insert("writes_field".into(), json!(scan.writes_field));
         m.insert("direct".into(), json!(scan.direct));
         m.insert("calls_ctor".into(), json!(scan.calls_ctor));
         m.insert("has_unsafe".into(), json!(scan.has_unsafe));
